@@ -676,7 +676,7 @@ def generate(ctx):
         variant = IFACE_VARIANTS[(r + 7 * _PERMS[n].index(p)) % len(IFACE_VARIANTS)] if not quick else None
         yield _iter_case(rng, variant=variant, n=n, forced=p, threads=True)
     # (2) the same on Batch (threads)
-    jobs = [(n, p, r) for n in (2, 3, 4) for p in _PERMS[n] for r in range(2 if quick else 8)]
+    jobs = [(n, p, r) for n in (2, 3, 4) for p in _PERMS[n] for r in range(3 if quick else 8)]
     for i, (n, p, r) in enumerate(jobs):
         if i % nsh == sh:
             yield _batch_case(rng, n=n, forced=p, threads=True)
@@ -721,15 +721,20 @@ def check(case, ctx):
     kind = case['kind']
     if kind == 'align':
         return _check_align(case, ctx)
-    tmp = tempfile.mkdtemp(prefix='sfmon-c18-')
-    try:
-        if kind == 'iter':
-            return _check_iter(case, ctx, tmp)
-        if kind == 'batch':
-            return _check_batch(case, ctx, tmp)
-        return _check_store(case, ctx, tmp)
-    finally:
-        shutil.rmtree(tmp, ignore_errors=True)
+    fn = {'iter': _check_iter, 'batch': _check_batch, 'store': _check_store}[kind]
+    forced = case.get('forced')
+    # a forced completion order that was not the observed one (scheduler noise) is re-run, at most twice: every
+    # run is judged on its results; the repetition only serves the evidence on observed orders
+    for attempt in range(3 if forced is not None else 1):
+        tmp = tempfile.mkdtemp(prefix='sfmon-c18-')
+        out = {}
+        try:
+            fn(case, ctx, tmp, out)
+        finally:
+            shutil.rmtree(tmp, ignore_errors=True)
+        if forced is None or out.get('done') is None or tuple(out['done']) == tuple(forced):
+            break
+        ctx.tally('forced_retry', f'{kind}:attempt{attempt + 1}_deviated')
 
 
 def _exc_info(e):
@@ -772,7 +777,7 @@ def _iter_klass(case, n, oc, extra=None):
     return k
 
 
-def _check_iter(case, ctx, tmp):
+def _check_iter(case, ctx, tmp, out):
     container = _build_container(case)
     items, mode = case['items'], case['mode']
     pairs, pairs_exc = _call(lambda: _plain_pairs(container, case))
@@ -795,7 +800,7 @@ def _check_iter(case, ctx, tmp):
             plan[digests[i]] = (ident, dl, True)
     failing = any(plan[d][2] for d in digests)
     log = os.path.join(tmp, 'tasks.log')
-    task_par = Task(log, plan, mode, items, True)
+    task_par = Task(log, plan, mode, items, True, from_epoch=case['forced'] is not None)
     task_seq = Task(None, plan, mode, items, False)
     seq, seq_exc = _call(lambda: _delegate(container, case, items).apply(task_seq, dtype=case['dtype'], name=case['name']))
     with _Watchdog(f'apply_pool {name}'):
@@ -803,6 +808,7 @@ def _check_iter(case, ctx, tmp):
             task_par, dtype=case['dtype'], name=case['name'], max_workers=case['max_workers'],
             chunksize=case['chunksize'], use_threads=case['threads']))
     done, oc = _tally_schedule(ctx, 'iter', case, n, ids, log)
+    out['done'] = done
     nontrivial = n >= 2 and (case['max_workers'] >= 2 or failing)
     ctx.evaluation(('iter', repr(case['spec']), repr(case['layout']), name, repr(case['kw']), mode, str(case['dtype']),
                     repr(case['name']), case['max_workers'], case['chunksize'], case['threads'], tuple(delays), tuple(sorted(fail))),
@@ -1022,7 +1028,7 @@ def _raw_matches(raw, got):
     return got['k'] == 'Series' and len(got['values']) == 1 and veq(got['values'][0], cs(raw))
 
 
-def _check_batch(case, ctx, tmp):
+def _check_batch(case, ctx, tmp, out):
     import static_frame as sf
     frames = [F.build_frame(s, lay) for s, lay in zip(case['specs'], case['layouts'])]
     labels = list(case['labels'])
@@ -1059,7 +1065,7 @@ def _check_batch(case, ctx, tmp):
     exc_type = TaskFailure if case['except_match'] else KeyError
 
     def run(parallel):
-        task = Task(log if parallel else None, plan, mode, items_form, parallel)
+        task = Task(log if parallel else None, plan, mode, items_form, parallel, from_epoch=case['forced'] is not None)
         kw = dict(name=case['name'])
         if parallel:
             kw.update(max_workers=case['max_workers'], chunksize=case['chunksize'], use_threads=case['threads'])
@@ -1085,6 +1091,7 @@ def _check_batch(case, ctx, tmp):
     with _Watchdog(f'Batch {op}'):
         par, par_exc = _call(lambda: run(True))
     done, oc = _tally_schedule(ctx, 'batch', case, n, ids, log)
+    out['done'] = done
     opname = op if op not in ('attr', 'chain') else f"{op}:{case['attr']}"
     ctx.tally('batch_op', opname)
     ctx.tally('batch_export', how)
@@ -1187,7 +1194,7 @@ def _zip_members(fp_):
         return [(n, zf.read(n)) for n in zf.namelist()]
 
 
-def _check_store(case, ctx, tmp):
+def _check_store(case, ctx, tmp, out):
     import static_frame as sf
     fmt, direction = case['fmt'], case['direction']
     labels = list(case['labels'])
@@ -1197,7 +1204,7 @@ def _check_store(case, ctx, tmp):
     frames = [F.build_frame(s, lay) for s, lay in zip(case['specs'], case['layouts'])]
     if case['slow']:
         phase = 'reduce' if direction == 'write' else 'rebuild'
-        frames = [_with_slow(f, SlowCell(os.getpid(), i, delays[i], phase, log)) for i, f in enumerate(frames)]
+        frames = [_with_slow(f, SlowCell(os.getpid(), i, delays[i], phase, log, case['forced'] is not None)) for i, f in enumerate(frames)]
     by_label = dict(zip(labels, frames))
     cls = _store_cls(fmt)
     cfg_seq, _ = _store_config(case, False)
@@ -1236,6 +1243,7 @@ def _check_store(case, ctx, tmp):
         with _Watchdog(f'store write {fmt}'):
             _, par_exc = _call(lambda: write(p_par, cfg_par))
         done, _s, _w = _read_log(log)
+        out['done'] = done
         if case['slow'] and sorted(done) == list(range(n)) and 2 <= n <= 4:
             ctx.tally('observed_order_store_write', _perm_key(n, done))
         ctx.tally('completion', f'store_write:{_order_class(done)}' if done else 'store_write:not_logged')
@@ -1301,6 +1309,7 @@ def _check_store(case, ctx, tmp):
     with _Watchdog(f'store read {fmt}'):
         par, par_exc = _call(lambda: read(cfg_par))
     done, _s, _w = _read_log(log)
+    out['done'] = done
     if case['slow'] and rl == labels and sorted(done) == list(range(n)) and 2 <= n <= 4:
         ctx.tally('observed_order_store_read', _perm_key(n, done))
     ctx.tally('completion', f'store_read:{_order_class(done)}' if done else 'store_read:not_logged')
